@@ -928,7 +928,11 @@ func (p *Printer) arithmExprRecurse(expr ArithmExpr, compact, spacePlusMinus boo
 	case *BinaryArithm:
 		if compact {
 			p.arithmExprRecurse(expr.X, compact, spacePlusMinus)
-			p.w.WriteString(expr.Op.String())
+			op := expr.Op.String()
+			p.w.WriteString(op)
+			if signsWouldJoin(op, expr.Y) {
+				p.space()
+			}
 			p.arithmExprRecurse(expr.Y, compact, false)
 		} else {
 			p.arithmExprRecurse(expr.X, compact, spacePlusMinus)
@@ -950,10 +954,13 @@ func (p *Printer) arithmExprRecurse(expr ArithmExpr, compact, spacePlusMinus boo
 					p.space()
 				}
 			}
-			p.w.WriteString(expr.Op.String())
+			op := expr.Op.String()
+			p.w.WriteString(op)
 			if expr.Op == Not && !compact {
 				// "!" followed by a word triggers history expansion
 				// in interactive shells; a space prevents that.
+				p.space()
+			} else if signsWouldJoin(op, expr.X) {
 				p.space()
 			}
 			p.arithmExprRecurse(expr.X, compact, false)
@@ -968,6 +975,30 @@ func (p *Printer) arithmExprRecurse(expr ArithmExpr, compact, spacePlusMinus boo
 		p.w.WriteByte(')')
 		if expr.X != nil {
 			p.arithmExprRecurse(expr.X, compact, false)
+		}
+	}
+}
+
+// signsWouldJoin reports whether an operator ending in '+' or '-' directly
+// followed by the given operand would lex differently, as the operand begins
+// with a sign operator of its own: "- -a" must not become "--a".
+func signsWouldJoin(op string, operand ArithmExpr) bool {
+	last := op[len(op)-1]
+	if last != '+' && last != '-' {
+		return false
+	}
+	for {
+		switch x := operand.(type) {
+		case *BinaryArithm:
+			operand = x.X
+		case *UnaryArithm:
+			if x.Post {
+				operand = x.X
+				continue
+			}
+			return x.Op.String()[0] == last
+		default:
+			return false
 		}
 	}
 }
